@@ -1,4 +1,5 @@
 #!/bin/bash
-for c in C11 C13 C03 C15 C19 C09 C14 C07 C16 C05 C02 C04 C17 C06 C08 C18 C12 C10 C01; do
-  /usr/bin/time -f "$c wall %es maxrss %MKB" ./check $c --tier thorough 2>&1 | grep -E "held|VIOLATED|VIOLATION|MACHINERY|wall .*maxrss|KNOWN" | cut -c1-200
+# the thorough tier of every check, with timing; VERIF_SEED is honoured
+for c in C11 C13 C03 C15 C19 C09 C14 C07 C16 C05 C04 C17 C06 C18 C02 C08 C12 C10 C01; do
+  /usr/bin/time -f "$c wall %es maxrss %MKB" ./check $c --tier thorough 2>&1 | grep -E "held|VIOLATED|VIOLATION|MACHINERY|wall .*maxrss|KNOWN|UNREPRODUCED" | cut -c1-200
 done
